@@ -50,7 +50,7 @@ pub fn emit(src: &Path, out: &mut String) {
                     }
                 }
             }
-            items.push(format!("{{ lhs := {}, rhs := {}, shape := {} }}", lean::s(&lhs), lean::s(&rhs), shape));
+            items.push(format!("{{ lhs := {}, rhs := {}, shape := {} }}", crate::forwards::wrapper_lean(&lhs), crate::forwards::wrapper_lean(&rhs), shape));
         }
     }
     out.push_str("/-- Every `PartialEq` impl between containers, with the shape of its body. -/\n");
